@@ -2,6 +2,7 @@ package props
 
 import (
 	"bytes"
+	"compress/gzip"
 	"context"
 	"encoding/json"
 	"errors"
@@ -567,6 +568,46 @@ func C06(r *h.Run) {
 				if check("bad_compressed", in, res) && res.err == nil {
 					r.Fail(h.Failure{Key: "client/error-status-accepted", Family: "bad_compressed", What: "HTTP 500 reported as success", Input: in})
 				}
+			}
+		}
+	}
+
+	// ---- unary Connect: a non-200 response whose JSON error body is compressed with an encoding
+	// the client knows (a gateway or another implementation compressing every body): the error
+	// is the one in the body, as it is for the same body sent uncompressed ----
+	for si, status := range []int{400, 404, 409, 429, 500, 503} {
+		for bi, body := range []string{`{"code":"not_found","message":"gone"}`, `{"code":"resource_exhausted","message":"slow down"}`, `{"code":"aborted"}`,
+			`{"code":"unauthenticated","message":"who are you","details":[]}`, `{"message":"no code"}`, `not json`} {
+			if !r.Thorough() && (si+bi)%2 != 0 {
+				continue
+			}
+			var zb bytes.Buffer
+			zw := gzip.NewWriter(&zb)
+			_, _ = zw.Write([]byte(body))
+			_ = zw.Close()
+			cfg := envCfg{Proto: "connect"}
+			call := func(enc string, b []byte) callResult {
+				hdr := http.Header{"Content-Type": {"application/json"}}
+				if enc != "" {
+					hdr.Set("Content-Encoding", enc)
+				}
+				return doCall(cfg, "unary", func() *http.Response {
+					return h.NewResponse(status, hdr.Clone(), h.NewChunkBody([][]byte{b}, h.FinCleanEOF), nil)
+				})
+			}
+			plain := call("", []byte(body))
+			zipped := call("gzip", zb.Bytes())
+			in := map[string]any{"proto": "connect", "kind": "unary", "status": status, "body": body, "content_encoding": "gzip", "body_hex": h.Hex(zb.Bytes())}
+			r.Eval("unary_connect_compressed_error", fmt.Sprint(status, body))
+			if !check("unary_connect_compressed_error", in, zipped) {
+				continue
+			}
+			r.Sample("unary_connect_compressed_error", map[string]any{"in": in, "error": fmt.Sprint(zipped.err), "error_of_the_uncompressed_body": fmt.Sprint(plain.err)})
+			r.Case("unary_connect_compressed_error", fmt.Sprintf("UnaryConnect %d true %s %s", status, jwireOf([]byte(body)), coqOptCode(zipped.err)),
+				map[string]any{"in": in, "impl_error": fmt.Sprint(zipped.err)})
+			if zipped.err == nil || plain.err == nil || connect.CodeOf(zipped.err) != connect.CodeOf(plain.err) || zipped.err.Error() != plain.err.Error() {
+				r.Fail(h.Failure{Key: "client/compressed-error-body", Family: "unary_connect_compressed_error", What: "the error read from a compressed error body differs from the error read from the same body uncompressed",
+					Input: in, Expected: fmt.Sprint(plain.err), Actual: fmt.Sprint(zipped.err)})
 			}
 		}
 	}
